@@ -99,6 +99,15 @@ def _mk_part(pid, divs, voices, staves, octave, missing_staff=False, with_rest=T
                         measures=[(0, bar), (bar, 2 * bar), (2 * bar, 3 * bar)] if not pickup else [(0, bar // 2), (bar // 2, bar // 2 + bar), (bar // 2 + bar, 3 * bar)], extra=extra)
 
 
+def _late_part():
+    """a part with nothing at time 0 (no signature, no measure, no rest): its first object is a note one quarter in"""
+    sc = _sc()
+    p = sc.Part("P1", quarter_duration=3)
+    for i, step in enumerate("GAB"):
+        p.add(sc.Note(step=step, octave=3, voice=1, staff=1, id="b%d" % i), 3 * (i + 1), 3 * (i + 2))
+    return p
+
+
 def _configs(tier):
     c = [
         ("equal_divs", [(1, [1], 1), (1, [1, 2], 1)]),
@@ -213,7 +222,7 @@ def bounded(b):
     # a second part whose timeline begins later than the first one's (its first note enters in the second bar, nothing is written before it),
     # and parts in 6/8 with a long upbeat that count musical beats
     for cname, mkparts in (("second_part_enters_later_without_rests", lambda: [G.build_part("P0", 2, notes=[("a0", 0, 4, "C", None, 4, 1, 1), ("a1", 4, 4, "D", None, 4, 1, 1)], measures=[(0, 8)]),
-                                                                                G.build_part("P1", 3, notes=[("b0", 3, 6, "G", None, 3, 1, 1), ("b1", 9, 3, "A", None, 3, 1, 1)], measures=[])]),
+                                                                                _late_part()]),
                            ("six_eight_with_an_upbeat_of_five_eighths_counted_in_musical_beats", lambda: [
                                G.build_part("P0", 2, ts=((0, 6, 8),), notes=[("a0", 0, 5, "C", None, 4, 1, 1), ("a1", 5, 6, "D", None, 4, 1, 1)], measures=[(0, 5), (5, 11)]),
                                G.build_part("P1", 4, ts=((0, 6, 8),), notes=[("b0", 0, 10, "G", None, 3, 1, 1), ("b1", 10, 12, "A", None, 3, 1, 1)], measures=[(0, 10), (10, 22)])])):
